@@ -333,36 +333,28 @@ RULES = [g1, g2, g3, g5]
 def g4(ctx):
     crate = ctx.lib()
     n = 0
-    for lid in C.need("leader-union", C.leader_union_functions(crate)):
-        lb = crate.bodies[lid]
-        for c in lb.calls:
-            if c.callee and c.callee.is_("add", GRP) and not lb.blocks[c.bb]["cleanup"]:
-                n += 1
-                recv = strip_role(lb.role_of_operand(c.args[0]))
-                perm = strip_role(lb.role_of_operand(c.args[1]))
-                conds = C.conditions_at(lb, c.bb)
-                ok = False
-                for e, cond in conds:
-                    if cond[0] == "false":
-                        r = strip_role(cond[1])
-                        if isinstance(r, tuple) and r[0] == "call" and r[1] == "contains" and strip_role(r[3][0]) == recv and any(x == perm for x in role_walk(r[3][1])):
-                            ok = True
-                            # on the member edge the function returns false
-                            sb = e[1]
-                            t = lb.blocks[sb]["term"]
-                            member_edges = [("e", sb, "otherwise")] if any(v == "0" for v, _ in t["cases"]) else [("e", sb, "1")]
-                            rets_false = True
-                            reach = lb.reach(member_edges)
-                            for d in lb.defs().get(0, []):
-                                if d["bb"] in reach and d["kind"] == "assign":
-                                    rr = lb.role_of_rvalue(d["rv"])
-                                    # only the definitions that are dominated by the member edge count
-                                    if lb.dominated_by(d["bb"], member_edges) and rr != ("const", "false"):
-                                        rets_false = False
-                            ctx.check(rets_false, "member-reports-no-change:" + C.fkey(lb), "when the permutation is already a member the union reports false",
-                                      "the leader union reports a change although the permutation was already in the class group", where_of(lb, sb))
-                ctx.check(ok, "add-only-non-member:" + C.fkey(lb), "Group::add is dominated by !group.contains(the same permutation)",
-                          "the leader union adds a permutation without testing membership of that permutation in that group first", where_of(lb, c.bb))
+    for site in C.leader_add_sites(crate):
+        c, lb = site["call"], site["body"]
+        n += 1
+        recv = strip_role(lb.role_of_operand(c.args[0]))
+        perm = strip_role(lb.role_of_operand(c.args[1]))
+        ok = False
+        for e, cond in C.conditions_at(lb, c.bb):
+            if cond[0] == "false":
+                r = strip_role(cond[1])
+                if isinstance(r, tuple) and r[0] == "call" and r[1] == "contains" and strip_role(r[3][0]) == recv and any(x == perm for x in role_walk(r[3][1])):
+                    ok = True
+                    sb = e[1]
+                    t = lb.blocks[sb]["term"]
+                    member_edges = [("e", sb, "otherwise")] if any(v == "0" for v, _ in t["cases"]) else [("e", sb, "1")]
+                    rets_false = True
+                    for d in lb.defs().get(0, []):
+                        if d["kind"] == "assign" and lb.dominated_by(d["bb"], member_edges) and lb.role_of_rvalue(d["rv"]) != ("const", "false"):
+                            rets_false = False
+                    ctx.check(rets_false, "member-reports-no-change:" + C.fkey(lb), "when the permutation is already a member the union reports false",
+                              "the leader union reports a change although the permutation was already in the class group", where_of(lb, sb))
+        ctx.check(ok, "add-only-non-member:" + C.fkey(lb), "Group::add is dominated by !group.contains(the same permutation)",
+                  "the leader union adds a permutation without testing membership of that permutation in that group first", where_of(lb, c.bb))
     ctx.floor("Group::add sites in the leader union", n, 1)
 
 
